@@ -110,12 +110,13 @@ def _medium_case(rng):
     vlib.import_lentil()
     import lentil, sys
     Z = sys.modules['lentil.zernike']
-    N = int(rng.integers(20, 29)); R = N // 2 - 1; r = int(rng.integers(4, 7))
-    sh = (int(rng.integers(3, N // 4 + 1)) * (1 if rng.integers(0, 2) else -1), int(rng.integers(2, N // 4 + 1)))
+    N = int(rng.integers(32, 49)); R = N // 2 - 1; r = int(rng.integers(3, 5))
+    sh = (int(rng.integers(N // 5, N // 3)) * (1 if rng.integers(0, 2) else -1), int(rng.integers(N // 6, N // 4)))
     seg = np.asarray(lentil.circle((N, N), r, shift=sh, antialias=False), dtype=float)
     G = {'pupil_radius': R}
-    nm = int(rng.integers(4, 7))
-    modes = [int(x) for x in rng.choice(np.arange(1, 29), size=nm, replace=False)]
+    nm = int(rng.integers(5, 7))
+    modes = [int(x) for x in rng.permutation(np.arange(1, nm + 1))]          # the low orders look alike on a small patch: cond 1e2..1e3
+    if rng.integers(0, 2): modes[int(rng.integers(0, nm))] = int(rng.integers(nm + 1, 16))
     rho, theta = Z.zernike_coordinates(lentil.circle((N, N), R, antialias=False))
     cond = max(float(np.linalg.cond(lentil.zernike_basis(seg, modes, vectorize=True, normalize=n_, rho=rho, theta=theta).T)) for n_ in (True, False))
     L = {'opd': 'C', 'mask': 'C', 'coords': 'C'}
@@ -291,7 +292,7 @@ def requests(c, io):
 
 def _judged(c): return c['cond'] <= 1e4
 
-def _ctol(c): return max(1e-10, 1e-12 * c['cond'] ** 2)      # the model solves the normal equations at Float: error ~ cond^2 x epsilon
+def _ctol(c): return max(1e-10, 1e-11 * c['cond'] ** 2)      # the model solves the normal equations by Cramer/Laplace at Float: error ~ cond^2 x epsilon x k!
 
 def _where(c, i, s):
     return (f"call {i + 1}/{len(c['steps'])} ({s['t']}, modes {s['modes']} as {s['modes_form']}, "
@@ -316,14 +317,14 @@ def compare(c, io, mo):
         elif s['t'] == 'fit':
             want = np.array(vlib.unfl(mo[k]['fit'])); k += 1
             if _judged(c):
-                sc = max(1.0, np.abs(o['opd_in']).max())
+                sc = max(1.0, np.abs(o['opd_in']).max(), np.abs(want).max())
                 if np.abs(np.array(o['fit']) - want).max() > _ctol(c) * sc:
                     return f"{_where(c, i, s)}: zernike_fit {o['fit']} differs from the model's normal-equation solution {list(want)}"
         elif s['t'] == 'rm':
             want = np.array(vlib.unfl(mo[k]['residual'])); k += 1
             if o['rem_shape'] != c['shape']: return f"{_where(c, i, s)}: zernike_remove returned shape {o['rem_shape']}"
             if _judged(c):
-                sc = max(1.0, np.abs(o['opd_in']).max())
+                sc = max(1.0, np.abs(o['opd_in']).max()) * len(s['modes'])
                 if np.abs(np.array(o['rem']) - want).max() > _ctol(c) * sc:
                     return f"{_where(c, i, s)}: zernike_remove differs from the model's opd - B·fit(opd) (max {np.abs(np.array(o['rem']) - want).max():.3e})"
         elif s['t'] in ('rt', 'span'):
